@@ -93,7 +93,7 @@ PLANS = {
                       main_stage(60, 300, tier, build="asan", name="asan", death_is_violation=True),
                       dict(main_stage(60, 900, tier, build="miri", name="miri"), shards=16)]),
         "require": ["lookups_with_matches", "exact_lookups", "trie_accesses_seen_by_hook", "word_id_table_accesses_seen_by_hook", "huge_dictionary_keys_checked",
-                    "valgrind.lookups_with_matches", "pylookup.py_lookups"],
+                    "valgrind.lookups_with_matches", "pylookup.py_lookups", "lookups_beyond_65535_bytes", "compilations_from_two_files_compared", "stacks_loaded_from_files"],
         "rule": "seeded dictionary stacks (system + 0..14 user layers; keys sharing prefixes, prefix chains, 2-127 homographs, astral / "
                 "single-byte keys, non-indexed rows, bulk lexicons of 100-4000 keys, thorough: 20k-70k keys so word-id-table offsets cross "
                 "255 and 65535; loaded aligned and from an odd address) x texts x EVERY byte offset (also inside characters): the multiset "
@@ -107,7 +107,7 @@ PLANS = {
         "stages": [dict(main_stage(40, 300, tier), needs=["cli"])] + ([] if tier == "quick" else [
             dict(main_stage(60, 900, tier, build="miri", name="miri"), shards=16)]),
         "require": ["fields_compared", "matrix_cells_compared", "recompilations_compared", "loads_at_other_alignment",
-                    "cli_builds_from_several_files", "worlds_with_sparse_matrix_text"],
+                    "cli_builds_from_several_files", "worlds_with_sparse_matrix_text", "repeated_compilations_of_one_builder", "partial_reads_compared", "index_lookups_compared"],
         "rule": "seeded lexicons (homographs, non-indexed rows, differing headword/reading/normalised forms, dictionary-form references, "
                 "numeric and inline A/B split references, word structure, 0-127 synonym ids, \\u escapes, strings of 1/126/127/128/129/255/256/"
                 "1000/10922 UTF-16 units incl. surrogate pairs, keys of 126-255 bytes, empty forms) + square / non-square matrices with "
@@ -286,7 +286,7 @@ PLANS = {
                    # dictionary numbers, POS and references as the Python binding reports them (fields incl. the raw word info, lookup)
                    dict(main_stage(60, 240, tier, name="pyrefs", shards=8), needs=["py", "cli"], extra=["--prop-alias", "C19", "--scale", "2"],
                         kinds_re="^python_(field|lookup|build)$")],
-        "require": ["rows_checked", "system_rows_compared_with_zero_layer_load", "morphemes_checked", "oov_morphemes_checked", "stacks_loaded_from_files", "morpheme_passes_with_a_field_subset", "pyrefs.py_word_infos_compared",
+        "require": ["rows_checked", "system_rows_compared_with_zero_layer_load", "morphemes_checked", "oov_morphemes_checked", "stacks_loaded_from_files", "morpheme_passes_with_a_field_subset", "stacks_with_version_2_user_dictionaries", "stacks_built_with_ConfigBuilder_user_dict", "pyrefs.py_word_infos_compared",
                     "fifteenth_dictionary_rejected_with_error", "plugin_registered_pos_2"],
         "rule": "seeded stacks of 0, 1, 2, 3-13, 14 and 15 user dictionaries over a generated system dictionary; each layer compiled the way the "
                 "CLI does (against a plain load of the system dictionary), with POS that exist only in that layer, POS shared between layers "
